@@ -198,6 +198,17 @@ CLAIMED = {
            "Modelled rather than verified: buildFromType (transcribed for the fragment), encoding/json (transcribed for the fragment). Not in the Lean fragment: struct theorems over all field lists, embedded "
            "structs, named non-struct types, custom marshalers, formats (int32 / float / date-time: seen by the validator only)."),
  },
+ "C17": {
+  "technique": "Lean 4 proof (totality and line preservation of the one modelled parser stage, removeIndent; crash of its unguarded form) + annotated programs generated from the documented grammar, clean and with hostile comment lines, scanned with codescan",
+  "text": ("Proof for one parser stage, partial: removeIndent (indentation stripper of swagger:operation YAML bodies) is modelled with explicit panics for indexing a nil regexp result; removeIndent_total: it returns "
+           "for EVERY list of lines and keeps their number (removeIndent_keeps_lines); blank_first_line_is_identity; unguarded_crashes proves that the code before the repair panicked on an empty body and on a "
+           "blank first line. The model is tied by correspondence: the real function (verif accessor) and the Lean function on random ASCII bodies. Everything else the property quantifies over is explored, "
+           "not proved: programs built from the documented grammar (meta, route + Responses, operation + YAML body, parameters, response, model with validations at items depth, every method and letter case) "
+           "must scan into a document that passes go-openapi/validate and holds every annotated route with method, path, id, tag, parameters and response codes; the same programs with hostile lines inserted in "
+           "every comment group (and odd field types) must never crash the scanner. Two crashes found this way were repaired; the extension-block parser's crashes are known findings."),
+  "note": ("Trusted: Lean kernel + audited axioms; codescan.Run in-process under recover(); go-openapi/validate; the expectation derived from the program generator. Modelled rather than verified: only removeIndent "
+           "(regular expressions transcribed by hand for ASCII). Not modelled: the ~40 regular expressions, sectionedParser, yamlSpecScanner, document assembly, merging with an input spec."),
+ },
 }
 NOT_YET = {
 }
